@@ -277,8 +277,10 @@ func (s *SamplerFactory) ClearDynsamplers() {
 
 	// Stop all shared dynsamplers
 	for _, entry := range s.sharedDynsamplers {
-		if stopper, ok := entry.dynsampler.(interface{ Stop() }); ok {
-			stopper.Stop()
+		// dynsampler-go's Stop returns an error; asserting a Stop() without a result
+		// never matched, so no dynsampler (and its goroutine) was ever stopped
+		if stopper, ok := entry.dynsampler.(interface{ Stop() error }); ok {
+			_ = stopper.Stop()
 		}
 	}
 
